@@ -749,11 +749,14 @@ EvalProblem(r) ==
       meaning == [k \in DOMAIN user |-> EquivClosed(FormS(user[k].f, <<>>, tab, rank), SrcOf(user[k].name).f)]
       meaningAll == FoldSet(LAMBDA k, acc : MergeT(acc, meaning[k]), Zero, DOMAIN user)
   IN IF whys # <<>> THEN [k \in DOMAIN whys |-> Out(r, "C09.problem_is_wellformed_tff", BadT([note |-> whys[k]]), "")]
-     ELSE <<Out(r, "C09.problem_is_wellformed_tff", OkT, ""),
+     \* only the checks of the property being decided are evaluated (the semantic ones are costly)
+     ELSE (IF Prop \in {"C09", "C06", "C12"} /\ Prop # "C09" THEN <<>> ELSE
+          <<Out(r, "C09.problem_is_wellformed_tff", OkT, ""),
             Out(r, "C09.text_carries_exactly_the_source_formulas",
-                IF Len(user) = Len(r.source) /\ roleOk THEN OkT ELSE BadT([note |-> "formulas of the text and of the problem differ in number or role"]), ""),
-            Out(r, "C06.problem_formulas_preserve_meaning", meaningAll, ""),
-            Out(r, "C12.own_axioms_true_in_standard_interpretation",
+                IF Len(user) = Len(r.source) /\ roleOk THEN OkT ELSE BadT([note |-> "formulas of the text and of the problem differ in number or role"]), "")>>) \o
+          (IF Prop \in {"C09", "C12"} THEN <<>> ELSE <<Out(r, "C06.problem_formulas_preserve_meaning", meaningAll, "")>>) \o
+          (IF Prop \in {"C09", "C06"} THEN <<>> ELSE
+          <<Out(r, "C12.own_axioms_true_in_standard_interpretation",
                 IF \E k \in DOMAIN own : ownVals[k] = "X"
                 THEN BadT([note |-> "an axiom anthem adds mentions a constant that is not a symbolic constant of the problem's formulas",
                            axiom |-> own[CHOOSE k \in DOMAIN own : ownVals[k] = "X"].name])
@@ -768,7 +771,7 @@ EvalProblem(r) ==
                 ELSE [OkT EXCEPT !.n = Len(own)], ""),
             Out(r, "C12.symbol_order_is_a_covering_chain",
                 IF isChain THEN OkT
-                ELSE BadT([note |-> "the ordering axioms are not a chain through all symbolic constants of the problem", got |-> chain, symbols |-> r.syms]), "")>>
+                ELSE BadT([note |-> "the ordering axioms are not a chain through all symbolic constants of the problem", got |-> chain, symbols |-> r.syms]), "")>>)
 
 \* strong equivalence: every h-implies-t axiom holds whenever H is below T (all pairs over the atoms the axioms mention)
 EvalTransition(r) ==
@@ -945,7 +948,7 @@ EvalRecord(r) ==
     [] r.kind = "fixloop" -> EvalFixLoop(r)
     [] r.kind = "roundtrip" -> EvalRoundtrip(r)
     [] r.kind = "tptp" -> EvalTptp(r)
-    [] r.kind = "tffproblem" -> EvalProblem(r) \o (IF r.strong THEN EvalTransition(r) ELSE <<>>)
+    [] r.kind = "tffproblem" -> EvalProblem(r) \o (IF r.strong /\ Prop \notin {"C09", "C06"} THEN EvalTransition(r) ELSE <<>>)
     [] r.kind = "analyze" -> EvalAnalyze(r)
     [] r.kind = "external" /\ Prop = "C11" -> EvalAccept(r)
     [] r.kind = "external" -> EvalExternal(r)
